@@ -81,7 +81,7 @@ func c02Reach(shape []c02Block, begin, target int, avoidBlock, avoidSlot int) bo
 	return seen[target]
 }
 
-func c02Run(n int) {
+func c02Run(n int, exclusive bool) {
 	blocks, shape, conds := c02Build(n)
 	begin := verifPick("begin", 0, n-1)
 	end := verifPick("end", 0, n-1)
@@ -143,6 +143,9 @@ func c02Run(n int) {
 	}
 	verifAssert("every-condition-is-a-branch-taken-on-the-path", onlyTaken)
 	verifAssert("every-branch-taken-on-the-path-is-a-condition", allTaken)
+	if !exclusive {
+		return
+	}
 	// P-exclusive: a reported condition must hold on every path from begin to end
 	for _, c := range got.Conditions {
 		for i := 0; i < n; i++ {
@@ -158,5 +161,8 @@ func c02Run(n int) {
 	}
 }
 
-// Harness_C02_paths_3: every CFG of 3 blocks.
-func Harness_C02_paths_3() { c02Run(3) }
+// Harness_C02_paths_3: every CFG of 3 blocks: the path is real and its conditions are the branches taken (P-valid).
+func Harness_C02_paths_3() { c02Run(3, false) }
+
+// Harness_C02_exclusive_3: additionally, a reported condition holds on every path (P-exclusive; known finding).
+func Harness_C02_exclusive_3() { c02Run(3, true) }
